@@ -142,6 +142,7 @@ func c11(p *core.Program, r *core.Report) {
 		r.Count("planar_functions_scanned", nfn)
 	}
 	crossingConventionRule(p, r, "crossing-convention")
+	parityRule(p, r, "even-odd-parity")
 	pointOnLineRule(p, r, "on-line-exact-predicate")
 	const rx = "ray-crossing-exact-predicate"
 	r.Rule(rx, "the ray-crossing counter decides on which side of the test point an edge crosses the ray with the exact orientation predicate applied to the three input coordinates (the test point and the edge's two vertices): countSegment calls OrientationIndex with exactly those operands, and nothing in package raycrossing calls into xy/internal/robustdeterminate, whose sign is exact only for the numbers it is handed - after the edge has been translated by the test point in float64 the differences are already rounded, so a point on an edge reads as off it and a point next to an edge as on it", 2)
@@ -864,4 +865,88 @@ func betweenDegenerateRule(p *core.Program, r *core.Report, rule string) {
 	top := ev.Run(fn, nil)
 	b, ok := top.Ret.Bool()
 	r.Check(ok && !b, rule, short(fn), p.Pos(fn.Pos()), true, "returns false for c1 == c3", "with c1 == c3 the result is "+top.Ret.String()+", not the constant false: isBetween(A, B, A) can report the far end B of a collinear input as lying between A and A")
+}
+
+// parityRule (C11): the location is decided by the parity of the crossing count, and the count only ever grows by one.
+func parityRule(p *core.Program, r *core.Report, rule string) {
+	r.Rule(rule, "CONSTEVAL: getLocation evaluated with the counter's crossing count bound to 0..5 (and the on-segment flag false) returns Exterior, Interior, Exterior, Interior, ... - the even-odd rule, which is what `inside` means for a ring that overlaps itself; and every store to the crossing count in the package adds the constant 1 to it (a signed count with a non-zero test is the winding rule: a ring walked twice, or a pentagram's core, would read as inside)", 2)
+	gl := mustFn(p, r, rule, "xy/internal/raycrossing", "(*rayCrossingCounter).getLocation")
+	if gl == nil {
+		return
+	}
+	isField := func(addr ssa.Value, name string) bool {
+		fa, ok := addr.(*ssa.FieldAddr)
+		if !ok {
+			return false
+		}
+		pt, ok := fa.X.Type().Underlying().(*types.Pointer)
+		if !ok {
+			return false
+		}
+		st, ok := pt.Elem().Underlying().(*types.Struct)
+		return ok && st.Field(fa.Field).Name() == name
+	}
+	loc := map[string]int64{}
+	if pkg := p.Pkg("xy/location"); pkg != nil {
+		for _, n := range []string{"Interior", "Exterior", "Boundary"} {
+			if c, ok := pkg.Types.Scope().Lookup(n).(*types.Const); ok {
+				loc[n], _ = constant.Int64Val(c.Val())
+			}
+		}
+	}
+	bad := ""
+	for k := int64(0); k <= 5; k++ {
+		ev := &eng.ConstEval{Inline: func(f *ssa.Function) bool { return core.FnPkgPath(f) == core.FnPkgPath(gl) }}
+		ev.Override = func(fn *ssa.Function, v ssa.Value, args []eng.CVal) (eng.CVal, bool) {
+			if ld, ok := v.(*ssa.UnOp); ok && ld.Op == token.MUL {
+				if isField(ld.X, "crossingCount") {
+					return eng.IntV(k), true
+				}
+				if isField(ld.X, "isPointOnSegment") {
+					return eng.ConstV(constant.MakeBool(false)), true
+				}
+			}
+			return eng.CVal{}, false
+		}
+		got, ok := ev.Run(gl, nil).Ret.Int()
+		want := loc["Exterior"]
+		if k%2 == 1 {
+			want = loc["Interior"]
+		}
+		if (!ok || got != want) && bad == "" {
+			bad = fmt.Sprintf("with %d crossings getLocation returns %v, the even-odd rule says %d", k, ev.Run(gl, nil).Ret, want)
+		}
+	}
+	r.Check(bad == "", rule, short(gl)+"/parity", p.Pos(gl.Pos()), true, "Interior exactly for an odd number of crossings", bad)
+	// increments
+	n, badInc := 0, ""
+	for _, fn := range pkgFuncs(p, "xy/internal/raycrossing") {
+		for _, b := range fn.Blocks {
+			for _, in := range b.Instrs {
+				st, ok := in.(*ssa.Store)
+				if !ok || !isField(st.Addr, "crossingCount") {
+					continue
+				}
+				n++
+				bo, isB := st.Val.(*ssa.BinOp)
+				okInc := false
+				if isB && bo.Op == token.ADD {
+					if ld, isLd := bo.X.(*ssa.UnOp); isLd && ld.Op == token.MUL && isField(ld.X, "crossingCount") {
+						if k, isK := eng.ConstInt(bo.Y); isK && k == 1 {
+							okInc = true
+						}
+					}
+				}
+				if c, isC := st.Val.(*ssa.Const); isC && c.Value != nil {
+					if k, isK := eng.ConstInt(c); isK && k == 0 {
+						okInc = true // initialisation
+					}
+				}
+				if !okInc && badInc == "" {
+					badInc = "the crossing count is assigned " + st.Val.String() + " at " + p.Pos(st.Pos()) + ", not count+1"
+				}
+			}
+		}
+	}
+	r.Check(badInc == "" && n >= 1, rule, "xy/internal/raycrossing/count-increments", p.Pos(gl.Pos()), true, fmt.Sprintf("%d store(s), each count+1", n), badInc)
 }
